@@ -18,6 +18,7 @@ import traceback
 from collections import defaultdict
 
 from tools.corr import C02_lib as M
+from tools.corr import C02_multi as X
 from tools.corr import C02_oracle as O
 from tools.corr import C03_lib as L
 from tools.lib import common
@@ -38,6 +39,17 @@ UNLIKE_ETA = ["jpsi_sigma1750.hel.json", "jpsi_n1520.hel.json", "chic1_n1440.hel
 QUICK_PLAIN = ["jpsi_sigma1750.can.json", "psi2s_gamma_gamma_jpsi.hel.json", *UNLIKE_ETA]
 QUICK_LINESHAPES = ["jpsi_gamma_pi0_pi0_omega_f0.hel.json", "lambdac_p_k_pi.hel.json", "shape_L0_spin1.can",
                     "shape_two_resonances_identical.hel"]
+# round 5: >= 4 final states, SEVERAL topologies (or identical-particle graphs) that contain the same two-body sub-decay
+# -- equal edge ids, particles, helicities, interaction -- below different ancestors (angles `_2^23` vs `_2^23,023`);
+# real qrules reactions (stored, thinned to the outer projections J/psi +1, gamma +1) and deterministic shapes
+MULTI_REAL = ["jpsi_pip_pim_pi0_gamma.hel.json", "jpsi_pip_pim_pi0_gamma.can.json"]
+MULTI_SHAPES = ["multi_4body_two_res_vs_cascades.hel", "multi_4body_two_res_vs_cascades.can", "multi_5body_depth3.hel",
+                "multi_identical_cascade.hel", "multi_4body_per_topology_ids.can"]
+# quick oracle on them: (name, with marker lineshapes)
+QUICK_MULTI_ORACLE = [("jpsi_pip_pim_pi0_gamma.hel.json", True), ("jpsi_pip_pim_pi0_gamma.can.json", False),
+                      ("multi_4body_two_res_vs_cascades.can", True), ("multi_5body_depth3.hel", True),
+                      ("multi_identical_cascade.hel", False), ("multi_4body_per_topology_ids.can", False)]
+MIN_SHARED_CASES = 8
 
 
 def load_corpus(big: bool = False):
@@ -51,7 +63,14 @@ def load_corpus(big: bool = False):
     # both child orderings, two resonances at the top node, identical particles in different branches with unequal
     # helicities, unlike parity factors along a chain
     out.update(L.shaped_reactions(big))
+    out.update(X.shaped_multi_reactions(big))
     return out
+
+
+def is_multi_name(name: str) -> bool:
+    """cases of the round-5 class: the numeric oracle evaluates the real expression tree atom by atom
+    (`numeric_compare(fast=True)`; SymPy's `Abs` makes the symbolic route take minutes on them)."""
+    return name.startswith(("multi", "jpsi_pip_pim_pi0_gamma"))
 
 
 def has_explicit_l0(reaction) -> bool:
@@ -100,7 +119,7 @@ def infer_own(chk: common.Check, corpus) -> bool:
     return own
 
 
-def correspondence(chk: common.Check, corpus, variant, own, rng, n_synth: int, thorough: bool):
+def correspondence(chk: common.Check, corpus, variant, own, rng, n_synth: int, thorough: bool, n_multi: int = 0):
     cases = []
     text = f"variant {variant[0]} {variant[1]} {int(own)}\n"
     dist = defaultdict(int)
@@ -145,7 +164,8 @@ def correspondence(chk: common.Check, corpus, variant, own, rng, n_synth: int, t
             if fl != default_flags(can):
                 add(name, reaction, False, fl, "corpus-flags")
     # HARDENING rule 3: the same configuration reached through a history on ONE builder object
-    hist_names = [n for n in corpus if n.startswith(("jpsi_sigma1750.hel", "jpsi_gamma_pi0_pi0_omega_f0.can", "shape_two"))]
+    hist_names = [n for n in corpus if n.startswith(("jpsi_sigma1750.hel", "jpsi_gamma_pi0_pi0_omega_f0.can", "shape_two",
+                                                        "multi_4body_two_res_vs_cascades.hel"))]
     if thorough:
         hist_names = [n for n in corpus if len(corpus[n].transitions) <= 60]
     for name in hist_names:
@@ -173,6 +193,43 @@ def correspondence(chk: common.Check, corpus, variant, own, rng, n_synth: int, t
         add(f"synthetic#{tries}", reaction, couplings, fl, "synthetic-identical" if ident else "synthetic", desc,
             dyn=dyn_for(reaction, rng) if rng.random() < 0.5 else ())
         dist[f"topology:{len(desc['particles'])}-edges"] += 1
+    # round 5: seeded multi-topology reactions (4-5 final states, 2-4 topologies with a common subsystem below different
+    # ancestors, one particle per subsystem, qrules-like / global / per-topology edge ids, permuted node ids)
+    n_ok = tries = 0
+    while n_ok < n_multi and tries < 12 * n_multi:
+        tries += 1
+        can = rng.random() < 0.4
+        reaction, desc = X.random_multi_reaction(rng, canonical=can, max_transitions=20)
+        if reaction is None:
+            continue
+        n_ok += 1
+        couplings = rng.random() < 0.4
+        fl = default_flags(can) if rng.random() < 0.6 else rng.choice(L.flag_combinations(can))
+        add(f"multi#{tries}", reaction, couplings, fl, "multi-topology", desc,
+            dyn=dyn_for(reaction, rng) if rng.random() < 0.6 else ())
+        dist[f"multi-topology:{desc['final_states']}-final-states:{len(desc['trees'])}-topologies:{desc['id_mode']}"] += 1
+    shared_cases = 0
+    deepest = 0
+    seen_shared: dict = {}
+    for c in cases:
+        r = c["reaction"]
+        if len(r.final_state) < 4:
+            continue
+        if id(r) not in seen_shared:
+            seen_shared[id(r)] = X.shared_subdecays(r)
+        sh = seen_shared[id(r)]
+        c["shared"] = sh
+        if sh["equal_decay_keys_with_different_boost_chains"]:
+            shared_cases += 1
+            deepest = max(deepest, sh["max_chain_depth"])
+            dist[f"shared-sub-decay:{sh['final_states']}-final-states:{sh['topologies']}-topologies"] += 1
+        elif sh["equal_particles_and_helicities_with_different_boost_chains"]:
+            dist["shared-sub-decay-with-different-edge-ids"] += 1
+    chk.info("cases_with_an_equal_two_body_decay_below_different_ancestors", shared_cases)
+    chk.info("deepest_boost_chain_of_a_shared_sub_decay", deepest)
+    if shared_cases < MIN_SHARED_CASES:
+        chk.broken_correspondence("corpus", f"only {shared_cases} correspondence cases contain an equal TwoBodyDecay below different "
+                                            f"ancestors (>= {MIN_SHARED_CASES} expected: {MULTI_REAL + MULTI_SHAPES})")
     M.RECON["dyn_tuples"] = set()
     blocks = M.parse_lean_blocks(common.lean_run(DRIVER, text), [M.particles_of(c["reaction"]) for c in cases])
     chk.info("distinct_lineshape_calls_reconstructed", len(M.RECON["dyn_tuples"]))
@@ -236,8 +293,51 @@ def _assign_marker_lineshapes(builder, reaction):
         builder.dynamics.assign(n, marker)
 
 
-def numeric_compare(reaction, couplings, flags, rng, n_points, lineshapes=False):
-    """lambdified real expression vs the helicity formula; returns (failure dict | None, evaluations)."""
+_D_FUNCTIONS: dict = {}
+
+
+def _sympy_wigner_D(j, m, mp):
+    """SymPy's own D^j_{m mp}(alpha, beta, gamma), unfolded once per (j, m, mp) and compiled."""
+    import sympy as sp
+    from sympy.physics.quantum.spin import WignerD
+
+    key = (j, m, mp)
+    if key not in _D_FUNCTIONS:
+        a, b, c = sp.symbols("alpha beta gamma", real=True)
+        _D_FUNCTIONS[key] = sp.lambdify((a, b, c), WignerD(j, m, mp, a, b, c).doit(), "numpy")
+    return _D_FUNCTIONS[key]
+
+
+def evaluate_tree(expr, rules, angles):
+    """Value of a real expression tree at one point: every WignerD / CG atom is replaced by the value SymPy itself
+    gives it (D unfolded per (j, m, m'), CG by doit()), parameters and lineshape symbols by `rules`, then the remaining
+    arithmetic (products, sums, |.|^2) is SymPy's. Returns complex, or raises ValueError naming what is left over."""
+    import sympy as sp
+    from sympy.physics.quantum.cg import CG
+    from sympy.physics.quantum.spin import WignerD
+
+    rep = dict(rules)
+    for a in expr.atoms(WignerD):
+        j, m, mp, *euler = a.args
+        vals = []
+        for x in euler:
+            unknown = [s_.name for s_ in x.free_symbols if s_.name not in angles]
+            if unknown:
+                raise ValueError(f"angle symbols without a value: {unknown}")
+            vals.append(float(x.xreplace({s_: angles[s_.name] for s_ in x.free_symbols})))
+        v = complex(_sympy_wigner_D(j, m, mp)(*vals))
+        rep[a] = sp.Float(v.real) + sp.I * sp.Float(v.imag)
+    for a in expr.atoms(CG):
+        rep[a] = sp.Float(float(a.doit()))
+    out = expr.xreplace(rep)
+    if out.free_symbols:
+        raise ValueError(f"free symbols left: {sorted(s_.name for s_ in out.free_symbols)[:6]}")
+    return complex(out)
+
+
+def numeric_compare(reaction, couplings, flags, rng, n_points, lineshapes=False, fast=False):
+    """real expression (lambdified; `fast`: evaluated atom by atom) vs the helicity formula;
+    returns (failure dict | None, evaluations)."""
     import numpy as np
     import sympy as sp
 
@@ -295,6 +395,9 @@ def numeric_compare(reaction, couplings, flags, rng, n_points, lineshapes=False)
             xvals[name] = complex(rng.uniform(0.5, 1.5), rng.uniform(-1, 1))
         return xvals[name]
 
+    if fast:
+        return _numeric_compare_fast(reaction, model, values, xvals, coefficient_of, lineshape_of if lineshapes else None,
+                                     rng, n_points)
     expr = model.expression.xreplace({p: values[p.name] for p in model.parameter_defaults if p.name in values})
     if lineshapes:
         # fix the interpretation of every lineshape symbol the real model contains
@@ -349,13 +452,63 @@ def numeric_compare(reaction, couplings, flags, rng, n_points, lineshapes=False)
     return None, n_points
 
 
+def _numeric_compare_fast(reaction, model, values, xvals, coefficient_of, lineshape_of, rng, n_points):
+    """`numeric_compare` without lambdify: the unfolded `model.expression` (and the sum of the I_ components) evaluated
+    at every point by `evaluate_tree`."""
+    import sympy as sp
+
+    expr = model.expression
+    rules = {p: sp.sympify(values[p.name]) for p in model.parameter_defaults if p.name in values}
+    for s_ in sorted(expr.free_symbols, key=lambda x: x.name):
+        if s_.name.startswith("X["):
+            if s_.name not in xvals:
+                xvals[s_.name] = complex(rng.uniform(0.5, 1.5), rng.uniform(-1, 1))
+            rules[s_] = sp.sympify(xvals[s_.name])
+    odd = [s_.name for s_ in expr.free_symbols if s_ not in rules and not s_.name.startswith(("phi", "theta"))]
+    if odd:
+        return {"what": "unexpected free symbols in the model expression", "symbols": sorted(odd)[:8]}, 0
+    names = set(O.all_angle_names(reaction)) | {s_.name for s_ in expr.free_symbols if s_ not in rules}
+    total = sum(v for k, v in model.components.items() if k.startswith("I_{"))
+    names |= {s_.name for s_ in total.free_symbols if s_.name.startswith(("phi", "theta"))}
+    worst = comp_sum_fail = None
+    for i_pt in range(n_points + 2):
+        ang = {n: (rng.uniform(0.1, math.pi - 0.1) if n.startswith("theta") else rng.uniform(-math.pi, math.pi))
+               for n in sorted(names)}
+        if i_pt >= n_points:
+            for j, n in enumerate(sorted(names)):
+                if n.startswith("theta"):
+                    ang[n] = [0.0, math.pi][(i_pt + (j if i_pt > n_points else 0)) % 2]
+        try:
+            real = evaluate_tree(expr, rules, ang).real
+        except ValueError as e:
+            return {"what": "model expression does not evaluate to a number", "detail": str(e), "angles": ang}, i_pt
+        spec, n_terms, n_conf = O.spec_intensity(reaction, coefficient_of, ang, lineshape_of)
+        scale = max(abs(spec), abs(real), 1e-300)
+        if abs(real - spec) > 1e-9 * scale + 1e-11 * max(1, n_terms) and (worst is None or abs(real - spec) / scale > worst["relative_difference"]):
+            worst = {"angles": ang, "model_expression": real, "helicity_formula": spec,
+                     "relative_difference": abs(real - spec) / scale, "terms": n_terms, "outer_configurations": n_conf,
+                     "parameters": {k: [v.real, v.imag] for k, v in list(values.items())[:6]}}
+        if i_pt == 0:
+            try:
+                a = evaluate_tree(total, {k: v for k, v in rules.items()}, ang).real
+                if abs(a - real) > 1e-9 * max(abs(a), abs(real), 1e-300):
+                    comp_sum_fail = {"sum_of_I_components": a, "intensity": real, "angles": ang}
+            except Exception as e:  # noqa: BLE001
+                comp_sum_fail = {"error": "".join(traceback.format_exception_only(type(e), e))[-300:]}
+    if worst is not None:
+        return {"what": "model expression differs from the helicity formula", **worst}, n_points
+    if comp_sum_fail is not None:
+        return {"what": "the I_ components do not add up to the intensity", **comp_sum_fail}, n_points
+    return None, n_points
+
+
 def oracle(chk: common.Check, corpus, cases, rng, thorough: bool, broken: bool):
     found = []
     todo = []
     names = list(corpus) if thorough else [n for n in QUICK_ORACLE if n in corpus]
     for n in names:
         r = corpus[n]
-        if len(r.transitions) > 80:
+        if len(r.transitions) > 80 or is_multi_name(n):
             continue
         can = r.formalism.startswith("canonical")
         if thorough or n in QUICK_PLAIN:
@@ -364,6 +517,20 @@ def oracle(chk: common.Check, corpus, cases, rng, thorough: bool, broken: bool):
             todo.append((n, r, True, default_flags(can)))
         if thorough or n in QUICK_LINESHAPES:
             todo.append((n + "+lineshapes", r, False, default_flags(can)))
+    # round 5: the multi-topology class, evaluated atom by atom (see `is_multi_name`)
+    multi = QUICK_MULTI_ORACLE
+    if thorough:
+        multi = [(n, ls) for n in corpus if is_multi_name(n) for ls in (False, True)]
+    for n, ls in multi:
+        if n in corpus and len(corpus[n].transitions) <= 80:
+            can = corpus[n].formalism.startswith("canonical")
+            todo.append((n + ("+lineshapes" if ls else ""), corpus[n], False, default_flags(can)))
+            if thorough and ls:
+                todo.append((n, corpus[n], True, default_flags(can)))
+    mc = [c for c in cases if c["kind"] == "multi-topology"]
+    mc.sort(key=lambda c: 0 if c.get("shared", {}).get("equal_decay_keys_with_different_boost_chains") else 1)
+    for c in mc[: (8 if thorough else 2) * (2 if broken else 1)]:
+        todo.append((c["label"] + "+lineshapes", c["reaction"], c["couplings"], c["flags"]))
     synth = [c for c in cases if c["kind"].startswith("synthetic") and len(c["reaction"].transitions) <= 24]
     # cases where the theorem's hypothesis fails are the interesting ones: always look at some; then canonical cases with an
     # explicit L = 0 under an integer-spin resonance (the lineshape's angular momentum must not fall back to the spin)
@@ -377,7 +544,8 @@ def oracle(chk: common.Check, corpus, cases, rng, thorough: bool, broken: bool):
     for label, r, couplings, flags in todo:
         with_ls = label.endswith("+lineshapes")
         try:
-            fail, n = numeric_compare(r, couplings, flags, rng, 3 if not thorough else 6, lineshapes=with_ls)
+            fail, n = numeric_compare(r, couplings, flags, rng, 3 if not thorough else 6, lineshapes=with_ls,
+                                      fast=is_multi_name(label))
         except Exception as e:  # noqa: BLE001
             fail, n = {"what": "the real code raised while the property was evaluated",
                        "error": "".join(traceback.format_exception(type(e), e, e.__traceback__))[-1200:]}, 0
@@ -432,7 +600,7 @@ class C02Property:
                     "transition's amplitude symbol (C02_intensity needs own-projection registration; witness "
                     "C02_witness_unequal_identical)")
             cases = correspondence(chk, corpus, variant, own, common.rng_for(PROP_ID, seed, "synthetic"),
-                                   n_synth=60 if thorough else 14, thorough=thorough)
+                                   n_synth=60 if thorough else 14, thorough=thorough, n_multi=16 if thorough else 4)
         except common.LeanRunError as e:
             chk.broken_correspondence("driver", f"Lean driver failed: {e}"[:800])
         except common.InfraError:
